@@ -814,7 +814,12 @@ def prep_cases(ctx):
             vals.append((k + 0.3) / 10 ** n)
     out = []
     for n in ns:
-        for x in vals:
+        ties = []
+        for _ in range(400 if ctx.thorough else 120):
+            k = rng.randrange(-10 ** (n + 1), 10 ** (n + 1))
+            ties.append((k + 0.5) / 10 ** n)                         # written as decimal ties
+            ties.append(float(np.nextafter((k + 0.5) / 10 ** n, rng.choice([-np.inf, np.inf]))))
+        for x in vals + ties:
             out.append((True, n, float(x)))
             out.append((False, n, float(x)))
     return out
@@ -976,7 +981,25 @@ def correspond(ctx):
 
     # float_prep on single numbers
     pterms, pmeta = [], []
+    p64terms, p64meta, tie_terms, fl_terms, fl_meta = [], [], [], [], []
     for arr, n, x in prep_cases(ctx):
+        if arr and use_model and math.isfinite(x):
+            # numpy's algorithm at the binary64 level: every value, ties and near-ties included
+            try:
+                k64 = run_prep(True, n, x)
+                if isinstance(k64, int):
+                    p64terms.append(f"({cz(n)}, {cfl(x)}, {cz(k64)})")
+                    p64meta.append((n, x, k64))
+                    corr.count("float_prep_binary64")
+                    if near_tie(x, n):
+                        tie_terms.append(f"(true, {cz(n)}, {cfl(x)}, {cz(k64)})")
+                y = float(x) * 10.0 ** n
+                if x != 0 and math.isfinite(y):
+                    fl_terms.append(f"({cqq(x)}, {cz(n)}, {cqq(y)})")
+                    fl_meta.append((x, n, y))
+                    corr.count("binary64_product")
+            except Exception:
+                pass
         if arr and near_tie(x, n):
             corr.hit("prep_skipped_near_tie")
             continue
@@ -1037,6 +1060,22 @@ def correspond(ctx):
         arr, n, x, k = pmeta[b]
         got, _ = coqrun.eval_terms("C11prep", REQ, "", [f"{'prep_arr' if arr else 'prep_scalar'} {cz(n)} {cfl(x)}"])
         corr.disagreements.append({"stream": "float_prep", "case": {"prep": [arr, n, x]}, "impl": k, "model": got})
+    bad, errors = coqrun.eval_bad_indices("C11prep64", REQ, "", "check_prep64", p64terms, shard=1500, ty="Z * fl * Z")
+    corr.errors.extend(f"prep64 shard {k}: {e}" for k, e in errors)
+    for b in bad[:6]:
+        n, x, k = p64meta[b]
+        got, _ = coqrun.eval_terms("C11prep64", REQ, "", [f"prep_arr64 {cz(n)} {cfl(x)}"])
+        corr.disagreements.append({"stream": "float_prep_binary64", "case": {"prep": [True, n, x]}, "impl": k, "model": got})
+    bad, errors = coqrun.eval_bad_indices("C11fl64", REQ + ["QV.Common.HFBin64", "QV.Common.HFRound"], "", "check_fl64", fl_terms, shard=1500, ty="Q * Z * Q")
+    corr.errors.extend(f"fl64 shard {k}: {e}" for k, e in errors)
+    for b in bad[:6]:
+        x, n, y = fl_meta[b]
+        corr.disagreements.append({"stream": "binary64_product", "case": {"x": x, "n": n}, "impl": y, "model": "fl64 gives another double"})
+    # how often numpy's rounding differs from exact rounding of the value (the characterised exceptional set): not a disagreement
+    bad, errors = coqrun.eval_bad_indices("C11ties", REQ, "", "check_prep", tie_terms, shard=1500, ty="bool * Z * fl * Z")
+    corr.errors.extend(f"ties shard {k}: {e}" for k, e in errors)
+    corr.hit("near_tie_values_checked_at_binary64_level", len(tie_terms))
+    corr.hit("near_tie_values_where_numpy_differs_from_exact_rounding", len(bad))
     bad, errors = coqrun.eval_bad_indices("C11bonds", REQ, "", "check_bonds", bterms, shard=500, ty="list bond * outcome (list bond)")
     corr.errors.extend(f"bonds shard {k}: {e}" for k, e in errors)
     for b in bad[:6]:
@@ -1107,8 +1146,11 @@ TRUSTED = [
     "(b) differential execution: the model's token list against the exact text the implementation fed to hashlib.sha1 (observed by "
     "substituting the module's `hashlib` name during the call), equality classes on pairs, float_prep on single numbers, stored bonds",
     "SHA-1 is a parameter of the model, assumed injective (collision freedom is not proved); the theorems are about the hashed text",
-    "numpy.around is modelled as exact round-half-even of the binary64 value; numpy computes rint(x*10^n)/10^n in binary64, which can "
-    "differ within ~1e-3 rounding units of a boundary: such values are excluded from the model comparison and from the oracle (counted)",
+    "numpy.around: the theorems are stated for exact round-half-even of the binary64 value (prep_arr); numpy computes rint(fl(x*10^n))/10^n. "
+    "C11_np_around_exact proves the two agree unless fl(x*10^n) is a half-integer, for every fl that is monotone and exact on "
+    "half-integers — those two IEEE-754 properties of the multiplication are hypotheses (not modelled bit by bit); the executable fl64 / "
+    "prep_arr64 (numpy's algorithm) is compared with the machine on every value incl. ties and near-ties (streams float_prep_binary64, "
+    "binary64_product). Molecule-level comparison and the oracle still exclude (and count) molecules with a value within 1e-3 units of a tie",
     "json.dumps / float repr are modelled at token level (TFlt k n = repr of the double nearest k*10^-n); periodictable.to_mass is an "
     "environment function (C01); pydantic coercions and from_schema/to_schema validation are not modelled (C04)",
 ]
@@ -1126,7 +1168,9 @@ LEVEL_TEXT = (
     "charges at the charge||multiplicity boundary, and C11_canon_injective_without_wf_refuted shows that cannot be dropped), "
     "C11_hash_eq_iff_agree (for any injective digest in place of SHA-1; __eq__ is hash equality), C11_independent_of_route (unset vs "
     "default-filled fields), C11_independent_of_non_hash_fields, C11_noise_insensitive (|d|<=1e-10 away from a boundary), "
-    "C11_signed_zero_insensitive, C11_tiny_is_zero, C11_prep_idempotent (construction-time pre-rounding), C11_sensitive / _scalar / _text / "
+    "C11_signed_zero_insensitive, C11_tiny_is_zero, C11_prep_idempotent (construction-time pre-rounding), C11_np_around_exact / "
+    "_far (numpy's rint(fl(x*10^n)) equals the exact half-even rounding unless fl(x*10^n) is a half-integer — for every fl monotone and "
+    "exact on half-integers; in particular away from ties by more than the rounding error), C11_prep_arr64_agrees, C11_sensitive / _scalar / _text / "
     "_coordinate / _discrete (changes above the rounding unit change the text — outside float_prep's zero-flush zone), "
     "C11_flush_zone_geometry_bound, C11_sensitive_in_flush_zone_refuted (known finding: the threshold is 5**-(n+1), so -5e-7 and +5e-7 hash "
     "alike), C11_bond_order_invariant (any permutation and any orientation flips of the bond list give the same stored bonds; proved for "
@@ -1136,7 +1180,9 @@ LEVEL_TEXT = (
     "property oracle (exact decimal rounding of the getters' values, independent of float_prep) judges every pair on the implementation.")
 LEVEL_NOTE = (
     "Trusted: Coq kernel + vm_compute; the hand-written model and the translator; SHA-1 assumed injective (parameter, not modelled); "
-    "numpy.around/Python round modelled as exact half-even rounding of the binary64 value (values within 1e-3 units of a boundary are "
-    "excluded and counted); json.dumps/float repr modelled at token level; to_mass is an environment function; pydantic / from_schema "
+    "numpy.around: theorems are about exact half-even rounding of the binary64 value; its relation to numpy's binary64 algorithm is "
+    "C11_np_around_exact, whose two hypotheses on the floating multiplication (monotone, exact on half-integers) are IEEE-754 facts, not "
+    "proved of the executable fl64 (which is compared with the machine on every run, ties included); molecules with a value within 1e-3 "
+    "units of a tie are still excluded from the molecule-level comparison and counted; json.dumps/float repr modelled at token level; to_mass is an environment function; pydantic / from_schema "
     "validation not modelled. No axioms (all theorems closed under the global context). The documented 1e-8/1e-6/1e-4 rounding differs "
     "from the code near zero (zero-flush zone, known finding C11-zero-flip-threshold): the theorems are stated for float_prep as it is.")
